@@ -9,13 +9,16 @@ valid parameters (expect `ok=1`) and on invalid ones (expect `ok=0`).
 Protocol (`c10 kind=<k> …`; every value is a decimal integer or a comma separated list):
 
   kind=filter  shape=<ints> fshape=<ints> mode=<0..5, Mode.ofCode>
-      -> `idx=<list> ok=<0|1> n=<len> rows=<list> nrows=<int>`; `rows` = for every array position (scan order)
-         the row of the offsets table the pointer arithmetic of `iterate_both` has reached (`scanState`;
-         proved equal to `tableRow`), `nrows` = `offsets_size`, `fill` = for every table row the C-order flat index
-         of the `position[]` at which `init_filter_offsets` computed it (`fillPos`); `idx` lists, for every array position p (C scan order, outer)
-         and every filter coordinate k (C scan order, inner), the C-order flat index of the element
-         the filter iterator reads (`ravelZ`, signed), or -1 for the border flag. `ok=1` iff every
-         non-flag coordinate list is inside `shape`.
+      -> `fill=<list> idx=<list> ok=<0|1> n=<len> rows=<list> nrows=<int>`
+         `idx`  = for every array position p (C scan order, outer) and every filter coordinate k
+                  (C scan order, inner) the C-order flat index of the element the filter iterator
+                  reads (`ravelZ`, signed), or -1 for the border flag;
+         `ok`   = 1 iff every non-flag coordinate list is inside `shape`; `n` = length of `idx`;
+         `rows` = for every array position (scan order) the row of the offsets table the pointer
+                  arithmetic of `iterate_both` has reached (`scanState`; proved equal to `tableRow`);
+         `nrows`= `offsets_size` = Π min(shape_d, fshape_d);
+         `fill` = for every table row the C-order flat index of the `position[]` at which
+                  `init_filter_offsets` computed it (`fillPos`).
   kind=region  a= f=
       -> `idx= rep= pos=`; one axis of length a under a filter of length f: `idx` = index of the
          offsets region used at coordinate p = 0..a-1 (`iterate_both`), `rep` = the `position[]` that
